@@ -61,3 +61,12 @@ package gateway
 //@   property C19
 //@   modifies *
 //@   ensures[event_time_is_the_instant_of_the_change] event != nil ==> calls("Unix") == old(calls("Unix")) + 1 && U_unixnano(lastret("Unix")) == old(event.EventTime) && calledwith("New", 0, lastret("Unix"))
+
+// Request validation (property C26): a swamp name that is empty or does not have the three-part
+// form sanctuary/realm/swamp is answered with an error, never parsed.
+//@ func checkSwampName(zeusInterface, islandID, inputSwampName, checkExist) (n, err)
+//@   property C26
+//@   modifies *
+//@   ensures[empty_name_rejected] len(inputSwampName) == 0 ==> err != nil
+//@   ensures[short_name_rejected] U_sepcount(inputSwampName, "/") < 2 ==> err != nil
+//@   ensures[name_or_error] err == nil ==> n != nil
